@@ -57,6 +57,7 @@ type LCase struct {
 	Suffix    []engine.Step `json:"suffix,omitempty"` // fs ops after Close (C06)
 	Procs     int           `json:"gomaxprocs,omitempty"`
 	ClosePos  int           `json:"close_pos,omitempty"`
+	Storm     int           `json:"storm,omitempty"` // goroutines hammering Add/WatchList/Remove while Close runs
 }
 
 func (c *LCase) Save(p string) error { return engine.SaveJSON(p, c) }
@@ -217,10 +218,13 @@ func lifeCall(f func()) { f() }
 // the process as inconclusive when it is merely late.
 func withWatchdog(what string, f func()) (proof string, ok bool) {
 	done := make(chan struct{})
+	gid := make(chan string, 1)
 	go func() {
+		gid <- engine.GoID()
 		lifeCall(f)
 		close(done)
 	}()
+	marker := "gid:" + <-gid
 	t := time.NewTimer(watchdog)
 	defer t.Stop()
 	select {
@@ -228,11 +232,11 @@ func withWatchdog(what string, f func()) (proof string, ok bool) {
 		return "", true
 	case <-t.C:
 	}
-	proof = engine.BlockedProof("life.lifeCall")
+	proof = engine.BlockedProof(marker)
 	if proof != "" {
 		return what + " did not return within " + watchdog.String() + "\n" + proof, false
 	}
-	if _, st, _ := engine.GoroutineState("life.lifeCall"); st != "" {
+	if _, st, _ := engine.GoroutineState(marker); st != "" {
 		// the call is still inside; is somebody it waits for looping forever?
 		if sp := engine.SpinProof(); sp != "" {
 			select {
@@ -248,8 +252,24 @@ func withWatchdog(what string, f func()) (proof string, ok bool) {
 		return "", true
 	case <-time.After(20 * time.Second):
 	}
+	// a last look: blocked now, after having been merely slow before?
+	if proof = engine.BlockedProof(marker); proof != "" {
+		return what + " did not return\n" + proof, false
+	}
+	select {
+	case <-done:
+		return "", true
+	default:
+	}
 	engine.ExitInconclusive(what + " is late but not provably blocked")
 	return "", true
+}
+
+// guarded runs one API call under the watchdog and returns the proof that it
+// is blocked forever, or "".
+func guarded(what string, f func()) string {
+	proof, _ := withWatchdog(what, f)
+	return proof
 }
 
 func errClass(err error) string {
@@ -371,11 +391,13 @@ func setProcs(n int) func() {
 // overflowBurst queues more notifications than the kernel queue holds in the
 // watched directory dir (nobody has to be receiving): an error is then pending
 // behind the queued events.
-func overflowBurst(w *fsnotify.Watcher, extra int) {
+func overflowBurst(w *fsnotify.Watcher, extra int) (blocked string) {
 	// a directory of its own, so that nothing else in the case can end its watch
 	dir := "ovf"
 	syscall.Mkdir(dir, 0o755)
-	w.Add(dir)
+	if p := guarded("Add(\"ovf\")", func() { w.Add(dir) }); p != "" {
+		return p
+	}
 	n := engine.MaxQueuedEvents() + cap(w.Events) + 64 + extra
 	a, b := dir+"/a", dir+"/b"
 	for _, p := range []string{a, b} {
@@ -391,6 +413,7 @@ func overflowBurst(w *fsnotify.Watcher, extra int) {
 			syscall.Chmod(b, 0o600+uint32(i/2%2)*0o44)
 		}
 	}
+	return ""
 }
 
 // genOverflow decides whether a case leaves a kernel queue overflow (and so an
